@@ -1,0 +1,71 @@
+//! Verification hooks. Compiled only with `--cfg kira_verif`; never part of a
+//! normal build. With no simulation context installed on the calling thread
+//! every hook is a no-op (or falls through to `std`).
+
+#![allow(missing_docs)]
+
+use std::{cell::RefCell, sync::Arc, time::Duration};
+
+/// The simulator's view of a thread: where it may be preempted, how it
+/// spawns helper threads and how it sleeps.
+pub trait SimContext: Send + Sync {
+	fn yield_point(&self, site: &'static str);
+	fn spawn(&self, f: Box<dyn FnOnce() + Send + 'static>);
+	fn sleep(&self, duration: Duration);
+}
+
+thread_local! {
+	static CONTEXT: RefCell<Option<Arc<dyn SimContext>>> = const { RefCell::new(None) };
+}
+
+/// Installs (or removes) the simulation context of the calling thread and
+/// returns the previous one.
+pub fn install(context: Option<Arc<dyn SimContext>>) -> Option<Arc<dyn SimContext>> {
+	CONTEXT.with(|c| c.replace(context))
+}
+
+#[must_use]
+pub fn current() -> Option<Arc<dyn SimContext>> {
+	CONTEXT
+		.try_with(|c| c.try_borrow().ok().and_then(|c| c.clone()))
+		.ok()
+		.flatten()
+}
+
+#[inline]
+pub fn yield_point(site: &'static str) {
+	if let Some(context) = current() {
+		context.yield_point(site);
+	}
+}
+
+/// Stand-in for `std` inside functions that spawn threads or sleep: a
+/// block-scoped `use crate::verif::std_shim as std;` redirects
+/// `std::thread::{spawn, sleep}` to the simulation context without touching
+/// the lines that call them.
+pub mod std_shim {
+	pub use ::std::*;
+
+	pub mod thread {
+		pub use ::std::thread::*;
+
+		pub fn spawn<F>(f: F)
+		where
+			F: FnOnce() + Send + 'static,
+		{
+			if let Some(context) = crate::verif::current() {
+				context.spawn(Box::new(f));
+			} else {
+				::std::thread::spawn(f);
+			}
+		}
+
+		pub fn sleep(duration: ::std::time::Duration) {
+			if let Some(context) = crate::verif::current() {
+				context.sleep(duration);
+			} else {
+				::std::thread::sleep(duration);
+			}
+		}
+	}
+}
